@@ -100,7 +100,7 @@ def printed_items(frags, run):
     return out
 
 
-def check_production(g, shapes, pr, prod, configs):
+def check_production(g, shapes, pr, prod, configs, commented=False):
     probs = {}
     runs = 0
     cfgs = dict(pr.configs())
@@ -110,7 +110,12 @@ def check_production(g, shapes, pr, prod, configs):
             lens = (1, 2, 3)
         for ll in lens:
             try:
-                run = core.run_action(g, prod, choice, shapes=shapes, list_len=ll)
+                if commented:
+                    # every terminal of the production carries captured comments: a printer without comment handlers prints none
+                    hidden = dict((i, _comment_tokens(i)) for i, s_ in enumerate(prod.prod, 1) if s_ in g.terminals)
+                    run = core.run_action(g, prod, choice, shapes=shapes, list_len=ll, with_comments=True, hidden=hidden)
+                else:
+                    run = core.run_action(g, prod, choice, shapes=shapes, list_len=ll)
             except core.ActionRaised:
                 continue
             v = run.value
@@ -143,19 +148,29 @@ def check_production(g, shapes, pr, prod, configs):
     return runs, probs
 
 
-def print_obligations(run, g, configs):
+def _comment_tokens(i):
+    import ply.lex
+    out = []
+    for k, (ty, text) in enumerate((('BLOCK_COMMENT', '/*c%d*/' % i), ('LINE_COMMENT', '// l%d' % i))):
+        t = ply.lex.LexToken()
+        t.type, t.value, t.lineno, t.lexpos, t.colno = ty, text, 1, 1000 * i + k, 1
+        out.append(t)
+    return out
+
+
+def print_obligations(run, g, configs, commented=False):
     shapes = core.Shapes(g)
     pr = printing.Printing(g)
     total = 0
     for prod in g.productions:
         if prod.name in SKIP_LHS:
             continue
-        runs, probs = check_production(g, shapes, pr, prod, configs)
+        runs, probs = check_production(g, shapes, pr, prod, configs, commented=commented)
         total += runs
         if not runs:
             continue
         for cname in configs:
-            name = 'O-print[%s | %s]' % (prod, cname)
+            name = 'O-print[%s | %s%s]' % (prod, cname, ' | nodes carrying comments' if commented else '')
             bad = False
             seen = set()
             for label, why in probs.get(cname, []):
